@@ -589,3 +589,132 @@ Section AdvFacts.
       cbn [String.eqb Ascii.eqb Bool.eqb]; symmetry; apply lookup_has_int; assumption.
   Qed.
 End AdvFacts.
+
+(* ------------------------------------------------------------ D. text, options and offsets of the result against the full tree *)
+
+Lemma trees_eqb_eq a : forall b, trees_eqb a b = true -> a = b.
+Proof.
+  induction a as [|x a IH]; intros [|y b] H; try discriminate; [reflexivity|].
+  cbn [trees_eqb] in H. apply andb_prop in H as [H1 H2]. rewrite (rtree_eqb_eq x y H1), (IH b H2). reflexivity.
+Qed.
+
+Section Final.
+  Variable layouts : list layout.
+  Variable E : penv.
+
+  Lemma body_lines_with_full_ho d ho ho' cs fc :
+    body_lines layouts (with_full d ho cs fc) = body_lines layouts (with_full d ho' cs fc).
+  Proof.
+    unfold body_lines. rewrite !file_is_adv_with_full. unfold kid_lines.
+    rewrite !kid_with_full_batches, !kid_with_full_iat, !kid_with_full_control, !kid_with_full_advcontrol. reflexivity.
+  Qed.
+
+  Lemma offsets_with_full d ho cs fc : offsets_of (with_full d ho cs fc) = offsets_of d.
+  Proof. unfold offsets_of. rewrite kid_with_full_batches. apply map_offset_zip_adv. Qed.
+
+  (* what the theorems conclude about the file [f] that comes back, given the tree [d] that survives JSON and the
+     header options / ADV controls of the original *)
+  Definition comes_back (f d : rtree) (o ho : list rtree) (cs : list (list rtree)) (fc : list rtree) : Prop :=
+    lines_o layouts f = lines_o layouts (with_full d ho cs fc)
+    /\ file_opts f = o /\ header_opts f = [o] /\ offsets_of f = offsets_of d.
+
+  Theorem full_plain passed d ho cs fc :
+    fc_layout_ok layouts E = true ->
+    ready E passed d = true ->
+    ho = final_opts (pe_merge_fields E) passed (kid d "validateOpts") ->
+    exists f, post E passed d = (if pe_file_valid E f then POk f else PInvalid f)
+              /\ comes_back f d (final_opts (pe_merge_fields E) passed (kid d "validateOpts")) ho cs fc.
+  Proof.
+    intros Hfc Hr Hho.
+    destruct (post_ready_struct layouts E passed d Hfc Hr) as (f & h & Hp & EH & Kh & Kb & Ki & Ko & Hbody & Hadv).
+    exists f. split; [exact Hp|]. unfold comes_back.
+    split.
+    { unfold lines_o. rewrite Kh, kid_with_full_header, EH. cbn [map]. rewrite <- Hho.
+      f_equal. rewrite Hbody. symmetry. now apply body_lines_with_full_plain. }
+    split; [exact Ko|]. split.
+    { unfold header_opts. rewrite Kh. cbn [map]. rewrite kid_set_kid_eq. reflexivity. }
+    unfold offsets_of. rewrite Kb, map_map. apply map_ext. intros b. apply kid_out_batch. vm_compute; reflexivity.
+  Qed.
+
+  Theorem full_adv passed d ho cs fc :
+    afc_layout_ok layouts E = true ->
+    ready_adv E passed d cs fc = true ->
+    ho = final_opts (pe_merge_fields E) passed (kid d "validateOpts") ->
+    exists f, post E passed d = (if pe_file_valid E f then POk f else PInvalid f)
+              /\ comes_back f d (final_opts (pe_merge_fields E) passed (kid d "validateOpts")) ho cs fc.
+  Proof.
+    intros Hfc Hr Hho.
+    destruct (post_ready_adv layouts E passed d cs fc Hfc Hr) as (f & h & Hp & EH & Kh & Ko & Koff & Hbody).
+    exists f. split; [exact Hp|]. unfold comes_back.
+    split.
+    { unfold lines_o. rewrite Kh, kid_with_full_header, EH. cbn [map]. rewrite <- Hho.
+      f_equal. rewrite Hbody. apply body_lines_with_full_ho. }
+    split; [exact Ko|]. split.
+    { unfold header_opts. rewrite Kh. cbn [map]. rewrite kid_set_kid_eq. reflexivity. }
+    exact Koff.
+  Qed.
+End Final.
+
+(* ------------------------------------------------------------ E. from the grouped hypotheses to [ready] / [ready_adv] *)
+
+Lemma forallb_and {A} (p q : A -> bool) l : forallb p l = true -> forallb q l = true -> forallb (fun x => p x && q x) l = true.
+Proof.
+  intros Hp Hq. rewrite forallb_forall in *. intros x Hx. rewrite (Hp x Hx), (Hq x Hx). reflexivity.
+Qed.
+
+Lemma forallb_impl {A} (p q : A -> bool) l : (forall x, In x l -> p x = true -> q x = true) -> forallb p l = true -> forallb q l = true.
+Proof. intros H Hp. rewrite forallb_forall in *. intros x Hx. apply H; auto. Qed.
+
+Section Hyps.
+  Variable fhv bhv : fhv_t.
+  Variable fv : rtree -> bool.
+  Let E := env_cur fhv bhv fv.
+
+  Lemma prepared_of_valid v :
+    valid fhv bhv fv v = true -> catx_clean v = true ->
+    forallb (batch_prepared E) (kid (tree_of_file v) "Batches") = true.
+  Proof.
+    intros Hv Hc. unfold valid in Hv. cbv zeta in Hv.
+    repeat (apply andb_prop in Hv as [Hv ?]). rename H1 into Hb.
+    unfold catx_clean in Hc. rewrite forallb_forall in *. intros b Hin.
+    specialize (Hb b Hin). specialize (Hc b Hin). apply andb_prop in Hb as [Hb1 Hb2].
+    unfold batch_prepared. apply andb_true_intro; split; [|exact Hb2].
+    change (pe_table E) with JsonPost.json_post_table.
+    destruct (existsb (sec_is (header_of b)) (pt_catx JsonPost.json_post_table)).
+    - apply forallb_and; [exact Hb1 | exact Hc].
+    - rewrite forallb_forall in *. intros e He. rewrite (Hb1 e He). reflexivity.
+  Qed.
+
+  Lemma hyps_ready_plain v :
+    is_adv_file (tree_of_file v) = false ->
+    in_domain v = true -> valid fhv bhv fv v = true -> tabulated fhv bhv fv v = true -> catx_clean v = true ->
+    ready E [] (tree_of_file v) = true.
+  Proof.
+    intros Hadv Hd Hv Ht Hc. pose proof (prepared_of_valid v Hv Hc) as Hprep. unfold E in *.
+    unfold in_domain in Hd. cbv zeta in Hd. apply andb_prop in Hd as [Hd Hdates]. 
+    unfold valid in Hv. cbv zeta in Hv. repeat (apply andb_prop in Hv as [Hv ?]).
+    rename H into Hgate, H0 into Hiatp, H1 into Hbatch, H2 into Hih, H3 into Hbh, H4 into Hh1.
+    unfold tabulated in Ht. cbv zeta in Ht. rewrite Hadv in Ht. repeat (apply andb_prop in Ht as [Ht ?]).
+    rename Ht into Tb, H into Tfc, H0 into Tn2, H1 into Tn1, H2 into Tc, H3 into Ti.
+    unfold ready. cbv zeta.
+    cbn [final_opts merge_rt].
+    rewrite Hadv. cbn [negb andb].
+    rewrite Hh1, Hbh, Hih, Hprep, Hiatp, Tb, Ti, Tc, Hdates, Tn1, Tn2, Tfc, Hgate. reflexivity.
+  Qed.
+
+  Lemma hyps_ready_adv v :
+    is_adv_file (tree_of_file v) = true ->
+    in_domain v = true -> valid fhv bhv fv v = true -> tabulated fhv bhv fv v = true -> catx_clean v = true ->
+    ready_adv E [] (tree_of_file v) (batch_adv_controls v) (file_adv_control v) = true.
+  Proof.
+    intros Hadv Hd Hv Ht Hc. pose proof (prepared_of_valid v Hv Hc) as Hprep. unfold E in *.
+    unfold in_domain in Hd. cbv zeta in Hd. apply andb_prop in Hd as [Hd Hdates].
+    unfold valid in Hv. cbv zeta in Hv. repeat (apply andb_prop in Hv as [Hv ?]).
+    rename H into Hgate, H0 into Hiatp, H1 into Hbatch, H2 into Hih, H3 into Hbh, H4 into Hh1.
+    unfold tabulated in Ht. cbv zeta in Ht. rewrite Hadv in Ht. repeat (apply andb_prop in Ht as [Ht ?]).
+    rename Ht into Tne, H into Tfc, H0 into Tn, H1 into Tb, H2 into Ta, H3 into Ti.
+    unfold ready_adv. cbv zeta.
+    cbn [final_opts merge_rt].
+    rewrite Hh1, Tne, Ti, Hbh, Ta, Hprep, Tb, Hdates, Tn, Tfc, Hgate. reflexivity.
+  Qed.
+End Hyps.
